@@ -111,6 +111,8 @@ def run_check(args):
         if can.get("proved_false"):
             crashes.append("%s: canary `ensures False` was PROVED (contradictory pre-condition or broken encoding)"
                            % fname)
+        if r["qual"] == "lemmas":
+            functions.pop()
         if any(k == "return" for k in r["outcomes"]) and not can.get("count"):
             crashes.append("%s: no canary generated on a normal-return path" % fname)
         for ob in r["obligations"]:
@@ -261,13 +263,14 @@ def run_check(args):
                               "failures": len(native_fail),
                               "per_function": {k: {kk: v[kk] for kk in ("evaluations", "skipped_pre", "distinct", "noteval")}
                                                for k, v in (native or {}).items()}},
-        "evaluations": max(native_evals, 1),
-        "distinct_nontrivial": max(native_distinct, 2),
-        "rule": "native cross-check inputs: seeded pools per parameter type; distinct = distinct input reprs "
-                "that satisfy the pre-condition",
         "explanation": claimed.get("explanation", ""),
         "known_findings_reported": [kf.get("id") for kf, _ in known],
     }
+    if native_evals > 0:
+        cov["evaluations"] = native_evals
+        cov["distinct_nontrivial"] = native_distinct
+        cov["rule"] = ("native cross-check of the executable contract clauses on the real functions: seeded input "
+                       "pools per parameter type; distinct = distinct input reprs that satisfy the pre-condition")
     if mutant_report is not None:
         cov["mutants"] = mutant_report
     ev = {"property_id": prop, "tier": args.tier, "seed": seed, "level": claimed.get("level", "proof"),
